@@ -20,6 +20,7 @@ ASSUMPTIONS = ["shape membership of the state's position (contains_point) is a p
                "hypot/atan2 are parameters of the model (math.hypot / math.atan2 of the state's velocity components)",
                "values within 1e-9 of an interval end (mod 2pi for angles) are excluded from the oracle when they come out of float "
                "arithmetic (hypot, atan2); exact end-point values are kept"]
+EXTRA_MODULES = ['CRProps.T16']      # translator tie: Gen.Src (regenerated from /repo every run) = hand model
 REQUIRED_BUCKETS = ["state/PMState", "state/KSState", "goal/lanelet", "goal/long-angle", "goal/multi", "int-values",
                     "reached/true", "reached/false", "traj/reached", "traj/not-reached", "pm/quadrant2", "pm/quadrant3"]
 
